@@ -105,7 +105,7 @@ def rect_pair(rng, m, mode=None):
         rng.choice(["disjoint", "overlap", "nested", "touching", "identical", "degenerate", "needle"])
     )
     aniso = float(10 ** rng.uniform(0, 3))
-    c1 = rng.normal(size=m) * scale * rng.choice([0.0, 1.0, 10.0])
+    c1 = rng.normal(size=m) * scale * rng.choice([0.0, 1.0, 10.0, 100.0])  # incl. regions far from the origin relative to their size
     h1 = scale * 10 ** (-rng.uniform(0, np.log10(aniso), size=m))
     h2 = scale * 10 ** (-rng.uniform(0, np.log10(aniso), size=m))
     if mode == "disjoint":
@@ -144,7 +144,7 @@ def ell_pair(rng, m, mode=None):
     a2 = a1 if rng.random() < 0.7 else float(10 ** rng.uniform(-1, 1.5))
     S1 = rand_spd(rng, m, scale / a1, aniso)
     S2 = rand_spd(rng, m, scale / a2 * float(10 ** rng.uniform(-1, 0)), aniso)
-    c1 = rng.normal(size=m) * scale * rng.choice([0.0, 1.0, 10.0])
+    c1 = rng.normal(size=m) * scale * rng.choice([0.0, 1.0, 10.0, 100.0])
     if mode == "disjoint":
         c2 = c1 + rng.normal(size=m) * scale * 4
     elif mode in ("overlap", "aniso"):
